@@ -1129,6 +1129,15 @@ def unpack_tuple(spec: ValueSpec, args: tuple[type, ...]) -> Expression:
             )
             if unpacker != "*()":  # workaround for empty tuples
                 unpackers.append(unpacker)
+        if unpack_idx is not None and unpack_idx < len(args) - 1:
+            # items after the variadic part are read from the end: a too
+            # short input must not serve two positions with one item
+            fixed_len = len(args) - 1
+            return (
+                f"tuple([{', '.join(unpackers)}]) "
+                f"if len({spec.expression}) >= {fixed_len} "
+                f"else {spec.expression}[{fixed_len - 1}]"
+            )
         return f"tuple([{', '.join(unpackers)}])"
 
 
